@@ -39,7 +39,6 @@ type Env interface {
 	Pedersen(t T, c *pcase)
 	OneColumnRefused(t T, c *pcase) string
 	AcceptsFull(t T, c *pcase) bool
-	TassaZeroScaleProbe(t T, c *pcase) bool
 	TassaAdmission(t T, c *pcase, verdict int, increasing bool) string
 }
 
